@@ -15,6 +15,7 @@ EXPLANATION = (
     "failure only for ConnectionClosedError; the request receiver accepts exactly INVOKE and PING; the receive filter itself is sound; the "
     "client decodes the connect answer with the answer's serializer (so a refusal is readable). "
     "Also decided: the failure answer's serializer id is known to exist; the answer's header names the serializer that encoded it and the answer is sent; the validator runs before the requested object's metadata is touched; the multiplex server closes what it does not accept. "
+    "Also decided (round 10): get_metadata's 'known' test speaks about the value this call looked up in the registry (a cache cannot answer for an unregistered id); _handshake returns once its answer is sent; a stalled CONNECT is reported as TimeoutError (it is owed a connect-failure; shared from C17). "
     'Also decided (round 9): No handler that catches an exception of the validator call leads on to CONNECTOK; a refused connection is closed without waiting for the peer. '
     "Not decided: bytes the peer observes, validators returning odd values."
 )
